@@ -81,7 +81,8 @@ def r14_1_marshalling(ctx):
                 all_ref_specs = [TW.spec(("ref", k)) for k in arc4.REF_KINDS]
                 TxnField = Sym("TxnField", attrs={k: f"TXNFIELD.{k}" for k in ("type_enum", "application_id", "accounts", "applications", "assets", "application_args", "amount")})
                 abi_sym = Sym("abi", attrs={"TransactionTypeSpecs": all_txn_specs, "ReferenceTypeSpecs": all_ref_specs, "BaseType": Rec("name", "abi.BaseType"), "Account": Rec("name", "abi.Account"), "Application": Rec("name", "abi.Application"), "Asset": Rec("name", "abi.Asset"),
-                                             "AccountTypeSpec": Rec("name", "abi.AccountTypeSpec"), "ApplicationTypeSpec": Rec("name", "abi.ApplicationTypeSpec"), "AssetTypeSpec": Rec("name", "abi.AssetTypeSpec")},
+                                             "AccountTypeSpec": Rec("name", "abi.AccountTypeSpec"), "ApplicationTypeSpec": Rec("name", "abi.ApplicationTypeSpec"), "AssetTypeSpec": Rec("name", "abi.AssetTypeSpec"),
+                                             "TransactionTypeSpec": (lambda: TW.spec(("txn", "txn")))},
                               methods={"type_specs_from_signature": lambda sig: (list(specs), None), "type_spec_from_algosdk": lambda name: TW.spec(("txn", name))})
                 cls_sym = Sym("InnerTxnBuilder", methods={"SetField": lambda fld, val: Rec("call", Rec("name", "SetField"), [fld, val], {}), "SetFields": lambda d: Rec("call", Rec("name", "SetFields"), [d], {}), "Next": lambda: Rec("name", "NEXT")})
 
